@@ -11,11 +11,11 @@ use std::sync::Arc;
 lazy_static! {
     static ref MAP: Arc<Function> = Code::parse(
         &Interpreter::without_stdlib(),
-        "(func: () -> (bool, int), mapper: (int) -> int) -> () -> (bool, int) {
+        "(func: () -> (bool, int), mapper: (int) -> int, default: int) -> () -> (bool, int) {
             return () -> (bool, int) {
                 res := func();
                 (con, value) := res;
-                if !con return res;
+                if !con return (false, default);
                 return (true, mapper(value));
             }
         }"
@@ -37,8 +37,9 @@ pub fn can_be_used(lhs: &Type, rhs: &Type) -> bool {
 
 pub fn exec(iter: Variable, function: Variable) -> ExecResult {
     let result_type = function.as_type().return_type().unwrap();
+    let default = Variable::of_type(&result_type).unwrap_or(Variable::Void);
     let result = MAP
-        .exec_with_args(&[iter, function])?
+        .exec_with_args(&[iter, function, default])?
         .into_function()
         .unwrap();
     let mut result = Arc::unwrap_or_clone(result);
